@@ -19,6 +19,7 @@ func c06(c *q.Ctx) {
 	metaKeysAgree(c)
 	ledgerMetaStaging(c)
 	metaCopiesDistinct(c)
+	utxoTotalStaging(c)
 	const st = "bcs/ledger/xledger/state::"
 	const led = "bcs/ledger/xledger/ledger::"
 	const miner = "kernel/engines/xuperos/miner::"
@@ -82,18 +83,7 @@ func c06(c *q.Ctx) {
 	}
 	c.Floor("K1", "bcs/ledger/xledger", "functions issuing Batch.Write", n, 5)
 
-	// nothing is staged after the commit point of a block-level operation (it would never reach the disk)
-	for fn, args := range map[string]map[string]int{
-		st + "(*State).procUndoBlkForWalk": {"State.undoTxInternal": 2, "State.undoPayFee": 2, "Meta.UpdateNextIrreversibleBlockHeightForPrune": 4, "State.updateLatestBlockid": 2},
-		st + "(*State).procTodoBlkForWalk": {"State.doTxInternal": 2, "State.payFee": 2, "Meta.UpdateNextIrreversibleBlockHeight": 4, "State.updateLatestBlockid": 2},
-		st + "(*State).PlayAndRepost":      {"State.processUnconfirmTxs": 2, "State.doTxInternal": 2, "State.payFee": 2, "Meta.UpdateNextIrreversibleBlockHeight": 4, "State.updateLatestBlockid": 2},
-		st + "(*State).PlayForMiner":       {"State.doTxInternal": 2, "State.payFee": 2, "Meta.UpdateNextIrreversibleBlockHeight": 4, "State.updateLatestBlockid": 2},
-	} {
-		if f := c.Fn(fn); f != nil {
-			bv := c.SameValueArgs(f, args, "one batch per block, shared by every step and by the pointer update", "a block is applied or undone atomically")
-			c.NoUseAfter(f, bv, "State.updateLatestBlockid", "updateLatestBlockid writes the batch: a step staged afterwards is lost at the next restart while memory says otherwise")
-		}
-	}
+	nothingAfterCommitPoint(c)
 	// RollBackUnconfirmedTx: one batch for all undos; in-memory pool only after the write
 	rb := c.Fn(st + "(*State).RollBackUnconfirmedTx")
 	if rb != nil {
@@ -212,6 +202,24 @@ func poolReload(c *q.Ctx) {
 			args := ci.Common().Args
 			c.Sites++
 			c.Check(len(args) == 3 && q.FreshPerIteration(ci, args[2]), "K11", "bcs/ledger/xledger/tx::(*Tx).LoadUnconfirmedTxFromDisk", "every loaded record is decoded into its own object", c.At(ci), "an object allocated outside the loop is shared by all pool entries: every id maps to the last record decoded")
+		}
+	}
+}
+
+// nothingAfterCommitPoint (C06, C03): a block-level operation stages every step into one batch and nothing after the
+// pointer update, which writes it - a step staged afterwards (the removal of a confirmed transaction's pool record, say)
+// never reaches the disk while memory says otherwise.
+func nothingAfterCommitPoint(c *q.Ctx) {
+	const st = "bcs/ledger/xledger/state::"
+	for fn, args := range map[string]map[string]int{
+		st + "(*State).procUndoBlkForWalk": {"State.undoTxInternal": 2, "State.undoPayFee": 2, "Meta.UpdateNextIrreversibleBlockHeightForPrune": 4, "State.updateLatestBlockid": 2},
+		st + "(*State).procTodoBlkForWalk": {"State.doTxInternal": 2, "State.payFee": 2, "Meta.UpdateNextIrreversibleBlockHeight": 4, "State.updateLatestBlockid": 2},
+		st + "(*State).PlayAndRepost":      {"State.processUnconfirmTxs": 2, "State.doTxInternal": 2, "State.payFee": 2, "Meta.UpdateNextIrreversibleBlockHeight": 4, "State.updateLatestBlockid": 2},
+		st + "(*State).PlayForMiner":       {"State.doTxInternal": 2, "State.payFee": 2, "Meta.UpdateNextIrreversibleBlockHeight": 4, "State.updateLatestBlockid": 2},
+	} {
+		if f := c.Fn(fn); f != nil {
+			bv := c.SameValueArgs(f, args, "one batch per block, shared by every step and by the pointer update", "a block is applied or undone atomically")
+			c.NoUseAfter(f, bv, "State.updateLatestBlockid", "updateLatestBlockid writes the batch: a step staged afterwards is lost at the next restart while memory says otherwise")
 		}
 	}
 }
